@@ -71,10 +71,24 @@ def query_sanitisers(ctx) -> None:
             ctx.fail('C07.sanitiser', fn, f'clause `{clause}` is stored without passing any validator', store, key=f'{clause}:unvalidated')
             continue
         applied = set()
-        for a in assigns:
-            # the validated value must derive from the clause parameter itself
-            if clause in core.names_in(a.value):
+        # the validated value must derive from the clause parameter itself - directly or through temporaries derived from it
+        derived = {clause}
+        local_assigns = [s for s in core.walk_local(fn.node) if isinstance(s, ast.Assign) and len(s.targets) == 1 and isinstance(s.targets[0], ast.Name)]
+        grew = True
+        while grew:
+            grew = False
+            for s in local_assigns:
+                if s.targets[0].id not in derived and derived & core.names_in(s.value) and s.targets[0].id not in GRAMMAR and any(s.targets[0].id in core.names_in(a.value) for a in local_assigns if a.targets[0].id in derived):
+                    derived.add(s.targets[0].id)
+                    grew = True
+        for a in local_assigns:
+            if a.targets[0].id in derived and derived & core.names_in(a.value):
                 applied |= _call_tails(a.value)
+        # a pure validator (raises or hands its arguments back unchanged) may also be called for its check alone
+        for st in core.walk_local(fn.node):
+            if isinstance(st, ast.Expr) and isinstance(st.value, ast.Call) and core.call_name(st.value) == 'ensure_subset' and (derived - {clause}) & core.names_in(st.value):
+                if all(graph.dominates(st, a) or not (isinstance(a.targets[0], ast.Name) and a.targets[0].id == clause) for a in assigns if derived & core.names_in(a.value)):
+                    applied.add('ensure_subset')
         for v in required:
             nob += 1
             ctx.check(v in applied, 'C07.sanitiser', fn, f'`{clause}` passes through {v} before being stored', assigns[0], key=f'{clause}:{v}')
